@@ -253,6 +253,17 @@ func pubWorld() *fedi.Net {
 	for i := 1; i <= 4; i++ {
 		n.Serve(M{"type": "Note", "id": fmt.Sprintf("%s/items/%d", h1, i), "content": fmt.Sprintf("item %d", i), "name": "i"})
 	}
+	// a post with two replies given by reference: one genuine, one that answers another post
+	threaded := fedi.Note(h1+"/notes/threaded", "threaded")
+	var kids []any
+	for i, parent := range []string{h1 + "/notes/threaded", h1 + "/notes/parent"} {
+		k := fedi.Note(fmt.Sprintf("%s/notes/kid%d", h1, i), fmt.Sprintf("kid %d", i))
+		k["inReplyTo"] = parent
+		n.Serve(k)
+		kids = append(kids, k["id"])
+	}
+	threaded["replies"] = M{"type": "Collection", "id": h1 + "/notes/threaded/replies", "totalItems": 2.0, "items": kids}
+	n.Serve(threaded)
 	simple := fedi.Note(h1+"/notes/simple", "simple")
 	simple["attributedTo"] = h1 + "/users/alice"
 	n.Serve(simple)
@@ -387,6 +398,24 @@ func pubScenarios() []pubScenario {
 			return s
 		}},
 		{"P4-duplicate-authors-coalesced", func() string { return describe(pub.New(h1+"/notes/dup", nil)) }},
+		{"P6-post-replies-through-its-own-constructor", func() string {
+			// the replies of a post are built by the post's own comment constructor, one
+			// goroutine per reply
+			p, ok := pub.New(h1+"/notes/threaded", nil).(*pub.Post)
+			if !ok {
+				return "not a post"
+			}
+			ch := p.Children()
+			if ch == nil {
+				return "no replies"
+			}
+			items, next, _ := ch.Harvest(3, 0)
+			s := fmt.Sprintf("next=%v", next != nil)
+			for _, it := range items {
+				s += " " + pub.VerifIdentity(it) + ":" + it.Name()
+			}
+			return s
+		}},
 		{"P5a-new-splicer-three-inputs", func() string {
 			sp := splicer.NewSplicer([]string{h1 + "/users/alice", h1 + "/notes/multi/replies", h1 + "/users/bob"})
 			return fmt.Sprintf("sources=%d", len(*sp))
@@ -459,7 +488,11 @@ func faultKey(f string) string {
 		fs := strings.Fields(f)
 		for i, w := range fs {
 			if w == "at" && i+2 < len(fs) {
-				return "data-race:" + strings.SplitN(fs[i+1], ":", 2)[0] + fs[i+2]
+				what := fs[i+2]
+				if !strings.HasPrefix(what, ".") {
+					what = ":" + what // a local variable (fields are written ".name")
+				}
+				return "data-race:" + strings.SplitN(fs[i+1], ":", 2)[0] + what
 			}
 		}
 		return "data-race"
@@ -663,7 +696,7 @@ func trunc(s string) string {
 
 func main() {
 	r := ev.New("C08", "model_checking",
-		"schedule enumeration (stateless DFS with replay, preemption bound raised 0,1,2[,3], happens-before fingerprint pruning) of 10 UI scenarios (open/feed/keys/resize/link/hook/command goroutines over the real ui.State, pub fan-out inlined) and 6 pub-level scenarios "+
+		"schedule enumeration (stateless DFS with replay, preemption bound raised 0,1,2[,3], happens-before fingerprint pruning) of 10 UI scenarios (open/feed/keys/resize/link/hook/command goroutines over the real ui.State, pub fan-out inlined) and 7 pub-level scenarios "+
 			"(post with two authors+audience+replies, activity, two-page harvest, duplicate authors, splicer; fan-out fully scheduled); oracles: lock held in every private State method and frame, one frame at a time, no deadlock, progress at quiescence, frame height, "+
 			"final state of every preemptive schedule equals that of some non-preemptive (serial) one, constructed items identical in all schedules, one request per URL; states = happens-before fingerprints, transitions = scheduling points executed; distinct_nontrivial = distinct (scenario, outcome) pairs")
 	flag.Parse()
@@ -764,7 +797,7 @@ func main() {
 	r.Traces = r.Executions()
 	r.Extra["scenarios"] = names
 	r.Assumptions = append(r.Assumptions,
-		"scheduling points: Mutex.Lock, WaitGroup.Wait, go (spawn), goroutine exit, dial (a fetch takes time), the output callback; sufficient for data-race-free code. Data-race freedom itself is decided in the same executions: reads and writes of struct fields in pub and splicer (through receivers, pointer parameters, &T{} locals and slice elements) are routed through the scheduler's conflict detector, which reports two accesses to one address, one of them a write, that the execution's happens-before relation (lock, WaitGroup, go, cache and singleflight keys) does not order. Not instrumented: map and slice element contents, locals captured by closures (covered by the result-determinism oracle and by the free-running -race supplement)",
+		"scheduling points: Mutex.Lock, WaitGroup.Wait, go (spawn), goroutine exit, dial (a fetch takes time), the output callback; sufficient for data-race-free code. Data-race freedom itself is decided in the same executions: reads and writes of struct fields in pub and splicer (through receivers, pointer parameters, &T{} locals and slice elements) are routed through the scheduler's conflict detector, which reports two accesses to one address, one of them a write, that the execution's happens-before relation (lock, WaitGroup, go, cache and singleflight keys) does not order. Local variables that a function literal assigns to although they are declared outside it go through the same detector. Not instrumented: map and slice element contents, package-level variables of the packages below pub (covered by the result-determinism oracle and by the free-running -race supplement, which also constructs and renders many items at once)",
 		"UI scenarios run the pub/splicer/client fan-out inline (fork-join at the spawn point); the pub-level scenarios schedule it fully and show the result is schedule-independent",
 		"a scenario that does not finish a bound within its time budget reports the last completed bound (exhaustive only up to that bound)",
 		"supplement (sampling, not the deciding step): the same scenario bodies are built with the Go race detector and run free-running without the scheduler, 3 rounds (quick) / 100 rounds (thorough); the detector is happens-before based, so a race is usually reported in the first round it is executed",
